@@ -82,14 +82,14 @@ def scenarios(tier: str) -> list[Scenario]:
         [W('html'), W('pickle'), W('tex'), W('F12'), op('extremove', 'm.html'), op('extremove', 'm~00.html'),
          op('extremove', 'm.pickle'), op('load', 'm.pickle'), op('load', 'm~00.pickle')],
         [set(), {'m.html', 'm~01.html', 'm.pickle'}, {'m~00.html', 'm~00.pickle', 'm.tex', 'm.F12', 'm~00.F12'}],
-        4 if quick else 5, max_env=2))
+        3 if quick else 4, max_env=2))
     # two objects of the same model name and a model whose name is a numbered name of the other
     out.append(Scenario(
         'name collisions',
         [W('html'), W('html', 'm', 'o2'), W('html', 'm~00', 'o3'), W('pickle'), W('pickle', 'm~00', 'o3'),
          op('load', 'm~00.pickle'), op('extcreate', 'm~01.html')],
         [set(), {'m.html'}, {'m.html', 'm.pickle', 'm~00~00.html'}],
-        4 if quick else 5, max_env=1))
+        3 if quick else 4, max_env=1))
     # data dumps and backups
     out.append(Scenario(
         'dumps+backups',
@@ -97,7 +97,7 @@ def scenarios(tier: str) -> list[Scenario]:
          op('backup', 'tiny_dumped', 'dat', 'copy'), op('backup', 'm', 'html', 'copy'), op('backup', 'm', 'html', 'rename'),
          W('html'), op('extremove', 'tiny_dumped_1.dat'), op('extremove', 'tiny_dumped~00.dat')],
         [set(), {'tiny_dumped.dat', 'tiny_dumped_1.dat', 'tiny_dumped_3.dat', 'm.html', 'm_1.html'}],
-        4 if quick else 5, max_env=1))
+        3 if quick else 4, max_env=1))
     # the real estimation, recycling, loading
     out.append(Scenario(
         'estimate+recycle',
@@ -113,6 +113,13 @@ def scenarios(tier: str) -> list[Scenario]:
         [full, full - {'m~99.pickle'}],
         3 if quick else 4, max_env=1, max_index=110))
     if not quick:
+        # deeper histories on a small alphabet: reports and pickles with holes, 5 operations
+        out.append(Scenario(
+            'deep: html+pickle with holes',
+            [W('html'), W('pickle'), op('extremove', 'm.html'), op('extremove', 'm~00.pickle'), op('load', 'm.pickle'),
+             op('recycle', 'm')],
+            [{'m.html', 'm~01.html', 'm.pickle', 'm~00.pickle'}, {'m~00.html', 'm~01.pickle'}],
+            5, max_env=2))
         out.append(Scenario(
             'validate',
             [op('validate', 'm'), op('estimate', 'm'), op('extremove', 'm_val_est_1.html'), op('recycle', 'm_val_est_1')],
